@@ -80,15 +80,19 @@ def generate(seed, tier, k):
         doc["steps"] = [{"ramp": [{"target": "bc:patch", "values": vals, "H": H}]}]
     elif case == "uniaxial":
         e1 = r.choice([-0.25, -0.15, 0.1, 0.2, 0.3, 0.45])
-        vals = gen.ramp_values(r, n, round(e1 * mesh["b"][0], 6), shape)
-        doc["bc"] = {"case": "uniaxial", "clamped": False, "sym": True}
+        ax = r.randrange(dim)
+        vals = gen.ramp_values(r, n, round(e1 * mesh["b"][ax], 6), shape)
+        doc["bc"] = {"case": "uniaxial", "clamped": False, "sym": True, "axis": ax}
         doc["steps"] = [{"ramp": [{"target": "bc:move", "values": vals}]}]
     else:
         e1 = r.choice([-0.15, 0.1, 0.2, 0.3])
         e2 = r.choice([-0.1, 0.05, 0.15, 0.3])
         t = gen.ramp_values(r, n, 1.0, shape if shape in ("mono", "nonuniform", "repeat") else "mono")
-        doc["bc"] = {"case": "biaxial", "clampes": [False, False], "sym": True}
-        doc["steps"] = [{"ramp": [{"target": "bc:move", "values": [round(e1 * mesh["b"][0] * x, 6) for x in t]}, {"target": "bc:move2", "values": [round(e2 * mesh["b"][1] * x, 6) for x in t]}]}]
+        import itertools
+
+        axes = list(r.choice(list(itertools.permutations(range(dim), 2))))
+        doc["bc"] = {"case": "biaxial", "clampes": [False, False], "sym": True, "axes": axes}
+        doc["steps"] = [{"ramp": [{"target": "bc:move", "values": [round(e1 * mesh["b"][axes[0]] * x, 6) for x in t]}, {"target": "bc:move2", "values": [round(e2 * mesh["b"][axes[1]] * x, 6) for x in t]}]}]
     doc["newton"] = {}
     if r.random() < 0.3:
         doc["newton"]["tol"] = r.choice([1e-8, 1e-10, 1e-6])
@@ -102,23 +106,41 @@ def generate(seed, tier, k):
 
 # ----------------------------------------------------------------------------------------
 def analytic_state(doc, w, level):
-    """(Fbar, P) of the homogeneous solution for the prescribed values of one substep."""
+    """(Fbar as a diagonal in mesh axes, P along the first load axis) of the homogeneous
+    solution for the prescribed values of one substep."""
     case = doc["bc"]["case"]
     ps = doc["field"]["kind"] == "PlaneStrain"
     mat = doc["material"]
     spec = mat if mat["name"] != "NI" else {"name": "NeoHooke", "p": mat["p"]}
     b = doc["mesh"]["b"]
+    dim = len(b)
+    diag = np.ones(3)
     if case == "uniaxial":
-        l1 = 1 + level[0] / b[0]
+        a = doc["bc"].get("axis", 0)
+        l1 = 1 + level[0] / b[a]
         l, P = refmodel.homogeneous(spec, "uniaxial", (l1,), planestrain=ps)
+        # principal order of the model: (load, lateral, lateral / out-of-plane)
+        others = [k for k in range(dim) if k != a]
+        diag[a] = l[0]
+        diag[others[0]] = l[1]
+        if dim == 3:
+            diag[others[1]] = l[2]
     else:
-        l1 = 1 + level[0] / b[0]
-        l2 = 1 + level[1] / b[1]
+        a1, a2 = doc["bc"].get("axes", (0, 1))
+        l1 = 1 + level[0] / b[a1]
+        l2 = 1 + level[1] / b[a2]
         l, P = refmodel.homogeneous(spec, "biaxial", (l1, l2), planestrain=ps)
-        if not ps:
-            # mesh axes: biaxial load case moves axes 0 and 1, third is free
-            pass
-    return np.diag(l), P
+        diag[a1] = l[0]
+        diag[a2] = l[1]
+        if dim == 3:
+            diag[3 - a1 - a2] = l[2]
+    return np.diag(diag), P
+
+
+def load_axis(doc):
+    if doc["bc"]["case"] == "uniaxial":
+        return doc["bc"].get("axis", 0)
+    return doc["bc"].get("axes", (0, 1))[0]
 
 
 class C09Monitor(jobsim.Monitor):
@@ -202,23 +224,24 @@ def run(doc, log):
         log.count("load-unload")
     if case != "patch":
         b = doc["mesh"]["b"]
-        A0 = (b[1] * b[2]) if dim == 3 else b[1]
+        la = load_axis(doc)
+        A0 = float(np.prod([b[k] for k in range(dim) if k != la]))
         xs, ys = job.x, job.y
         if len(xs) != len(mon.records) or len(ys) != len(mon.records):
             raise Violation(PROP, "curve-x", f"job.x / job.y have {len(xs)} / {len(ys)} entries for {len(mon.records)} converged substeps", site="CharacteristicCurve")
         for n, rec in enumerate(mon.records):
             lvl = rec["level"][0]
             xv = np.asarray(xs[n])
-            if abs(xv[0] - lvl) > 1e-12 * (1 + abs(lvl)):
-                raise Violation(PROP, "curve-x", f"job.x[{n}] = {xv[0]!r}, the {n}-th ramp value is {lvl!r}", site="CharacteristicCurve.x", fault=fk)
+            if abs(xv[la] - lvl) > 1e-12 * (1 + abs(lvl)):
+                raise Violation(PROP, "curve-x", f"job.x[{n}][{la}] = {xv[la]!r}, the {n}-th ramp value is {lvl!r}", site="CharacteristicCurve.x", fault=fk)
             log.count("curve-x-checked")
             F = rec["P"][0] * A0
             yv = np.asarray(ys[n])
             mu_eff = doc["material"]["p"].get("mu", doc["material"]["p"].get("C10", 0.5) * 2)
             mu_eff = float(np.sum(mu_eff)) if isinstance(mu_eff, list) else float(mu_eff)
             sc = max(abs(F), 0.05 * mu_eff * A0)
-            if abs(yv[0] - F) > (1e-5 * slack) * sc + 1e-9:
-                raise Violation(PROP, "curve-y", f"job.y[{n}][0] = {yv[0]:.8e}, analytic P11*A0 = {F:.8e} (substep {n}, {w.mesh.cell_type})", site=f"CharacteristicCurve.y[{w.mesh.cell_type}]", fault=fk)
+            if abs(yv[la] - F) > (1e-5 * slack) * sc + 1e-9:
+                raise Violation(PROP, "curve-y", f"job.y[{n}][{la}] = {yv[la]:.8e}, analytic P11*A0 = {F:.8e} (substep {n}, {w.mesh.cell_type})", site=f"CharacteristicCurve.y[{w.mesh.cell_type}]", fault=fk)
             log.count("curve-y-checked")
         # history-immutable: what was recorded at substep i is what the job holds at the end
         digs = [(adigest(np.asarray(a)), adigest(np.asarray(b))) for a, b in zip(xs, ys)]
